@@ -367,3 +367,216 @@ Example C16_root_R_example :
   val_ltb (Root false (1 # 4)) (3 # 5) = true /\ val_ltb (Root false (1 # 4)) (1 # 2) = false /\
   val_gtb (Root true (1 # 4)) (-3 # 5) = true /\ val_gtb (Root true (1 # 4)) (-1 # 2) = false /\ 0 <= 1 # 4.
 Proof. vm_compute. repeat split; try reflexivity; discriminate. Qed.
+
+(* ==================================================================================================
+   Extension of the MODEL beyond the property's statement: order statistics, MAPE and the pure helpers of
+   opendsm/common/utils.py, modelled AS CODED and characterised by theorems
+   (Model/MetricsUtils.v; proofs in Proofs/MetricsQuantileProofs.v and Proofs/MetricsUtilsProofs.v).
+   Kept at the end, with their own imports, so that a failure here leaves the theorems above counted. *)
+From Coq Require Import Qminmax.
+From V Require Import Model.MetricsUtils Proofs.MetricsQuantileProofs Proofs.MetricsUtilsProofs.
+
+(* ------------------------------------------------------------------ quantiles (np.quantile, "linear") *)
+
+(* min <= q <= max *)
+Theorem C16_quantile_between_min_and_max : forall l a b L U, l <> [] -> (0 < b)%Z -> (0 <= a <= b)%Z ->
+  (forall x, In x l -> L <= x /\ x <= U) -> L <= quantile l a b /\ quantile l a b <= U.
+Proof. exact quantile_bounds. Qed.
+Print Assumptions C16_quantile_between_min_and_max.
+
+(* monotone in p *)
+Theorem C16_quantile_monotone : forall l a1 a2 b, l <> [] -> (0 < b)%Z -> (0 <= a1 <= a2)%Z -> (a2 <= b)%Z ->
+  quantile l a1 b <= quantile l a2 b.
+Proof. exact quantile_mono. Qed.
+Print Assumptions C16_quantile_monotone.
+
+Theorem C16_iqr_nonneg : forall l, l <> [] -> 0 <= iqr l.
+Proof. exact iqr_nonneg. Qed.
+Print Assumptions C16_iqr_nonneg.
+
+Theorem C16_range_5_95_nonneg : forall l, l <> [] -> 0 <= range_5_95 l.
+Proof. exact range_5_95_nonneg. Qed.
+Print Assumptions C16_range_5_95_nonneg.
+
+Theorem C16_median_between_min_and_max : forall l L U, l <> [] ->
+  (forall x, In x l -> L <= x /\ x <= U) -> L <= median l /\ median l <= U.
+Proof. exact median_bounds. Qed.
+Print Assumptions C16_median_between_min_and_max.
+
+Example C16_quantile_example :
+  quantile [5; 1; 4; 2; 9] 1 4 == 2 /\ quantile [5; 1; 4; 2; 9] 3 4 == 5 /\ iqr [5; 1; 4; 2; 9] == 3 /\
+  quantile [1; 2; 3; 4] 1 2 == 5 # 2 /\ range_5_95 [0; 10; 20; 30; 40] == 36.
+Proof. vm_compute. repeat split; reflexivity. Qed.
+
+(* ------------------------------------------------------------------ median_absolute_deviation *)
+
+(* MAD_scaled = MAD_k * median(|x - median x|) *)
+Theorem C16_mad_definition : forall k l,
+  median_absolute_deviation k l None == k * median (map (fun x => Qabs (x - median l)) l) /\
+  (forall mu, median_absolute_deviation k l (Some mu) == k * median (map (fun x => Qabs (x - mu)) l)).
+Proof. intros k l. split; [reflexivity|intros mu; reflexivity]. Qed.
+Print Assumptions C16_mad_definition.
+
+Theorem C16_mad_nonneg : forall k l mu, 0 <= k -> l <> [] -> 0 <= median_absolute_deviation k l mu.
+Proof. exact mad_scaled_nonneg. Qed.
+Print Assumptions C16_mad_nonneg.
+
+Theorem C16_mad_at_most_largest_deviation : forall l D, l <> [] ->
+  (forall x, In x l -> Qabs (x - median l) <= D) -> 0 <= mad l /\ mad l <= D.
+Proof. exact mad_bounds. Qed.
+Print Assumptions C16_mad_at_most_largest_deviation.
+
+Example C16_mad_example :
+  median_absolute_deviation (3 # 2) [1; 2; 3; 4; 100] None == 3 # 2 /\
+  median_absolute_deviation (3 # 2) [1; 2; 3; 4; 100] (Some 2) == 3 # 2 /\ mad [7; 7; 7] == 0.
+Proof. vm_compute. repeat split; reflexivity. Qed.
+
+(* ------------------------------------------------------------------ MAPE *)
+
+Theorem C16_mape_undefined_iff : forall d mn, mape_of d mn = Undef <-> (forall r, In r d -> Qabs (fst r) < mn).
+Proof. exact mape_undef_iff. Qed.
+Print Assumptions C16_mape_undefined_iff.
+
+Theorem C16_mape_is_mean_abs_pct_error : forall d mn q, mape_of d mn = Num q ->
+  mape_rows d mn <> [] /\
+  q * qlen (mape_rows d mn) == rsum (map (fun r => Qabs ((fst r - snd r) / fst r)) (mape_rows d mn)) /\ 0 <= q.
+Proof. exact mape_value. Qed.
+Print Assumptions C16_mape_is_mean_abs_pct_error.
+
+Example C16_mape_example :
+  mape_of [(2, 1); (4, 5); (0, 3)] ex_mn = Num (3 # 8) /\ mape_of [(0, 1)] ex_mn = Undef.
+Proof. vm_compute. split; reflexivity. Qed.
+
+(* ------------------------------------------------------------------ OoM *)
+
+(* floor: 10^k <= |x| < 10^(k+1) *)
+Theorem C16_oom_floor : forall x k, ~ x == 0 -> oom OFloor x = Some k ->
+  qpow10 k <= Qabs x /\ Qabs x < qpow10 (k + 1).
+Proof. exact oom_floor_spec. Qed.
+Print Assumptions C16_oom_floor.
+
+Theorem C16_oom_ceil : forall x c, ~ x == 0 -> oom OCeil x = Some c ->
+  exists k, oom OFloor x = Some k /\ ((c = k /\ Qabs x == qpow10 k) \/ (c = (k + 1)%Z /\ qpow10 k < Qabs x)).
+Proof. exact oom_ceil_spec. Qed.
+Print Assumptions C16_oom_ceil.
+
+(* round: the decade k when log10|x| < k + 1/2 (x^2 < 10^(2k+1)), k + 1 otherwise *)
+Theorem C16_oom_round : forall x r, ~ x == 0 -> oom ORound x = Some r ->
+  exists k, oom OFloor x = Some k /\
+    ((r = k /\ Qabs x * Qabs x < qpow10 (2 * k + 1)) \/ (r = (k + 1)%Z /\ qpow10 (2 * k + 1) <= Qabs x * Qabs x)).
+Proof. exact oom_round_spec. Qed.
+Print Assumptions C16_oom_round.
+
+Theorem C16_oom_zero : forall m x, x == 0 -> oom m x = Some 1%Z.
+Proof. exact oom_zero. Qed.
+Print Assumptions C16_oom_zero.
+
+Example C16_oom_example :
+  oom OFloor 1000 = Some 3%Z /\ oom OFloor (9999 # 10) = Some 2%Z /\ oom OCeil 1000 = Some 3%Z /\
+  oom OCeil 1001 = Some 4%Z /\ oom ORound (316 # 100) = Some 0%Z /\ oom ORound (317 # 100) = Some 1%Z /\
+  oom OFloor (-1 # 4000) = Some (-4)%Z /\ oom OFloor (1 # 10 ^ 320) = Some (-320)%Z /\ ~ 1000 == 0.
+Proof. vm_compute. repeat split; try reflexivity; discriminate. Qed.
+
+(* ------------------------------------------------------------------ RoundToSigFigs *)
+
+(* as coded: an integer number of units 1/mags = 10^(OoM_round(x) - p + 1), within half a unit of x *)
+Theorem C16_round_sig_as_coded : forall x p r, round_sig x p = Some r ->
+  exists m j, sig_mags x p = Some m /\ 0 < m /\ r * m == inject_Z j /\ Qabs (r - x) <= (1 # 2) / m.
+Proof. exact round_sig_as_coded. Qed.
+Print Assumptions C16_round_sig_as_coded.
+
+(* Facts about the code as it stands (not statements of property C16: RoundToSigFigs has no caller in the
+   package and the pinned test tests/daily_model/utilities/test_utils.py::test_RoundToSigFigs asserts the coded
+   behaviour, 5678.1234 -> 5680 for p = 4).  The docstring, read literally ("rounds x to p significant
+   figures"), would mean: within half a unit of the p-th significant digit, and idempotent: *)
+Definition C16_round_sig_docstring_reading_figures : Prop := forall x p r u, ~ x == 0 -> (1 <= p)%Z ->
+  round_sig x p = Some r -> sig_unit_spec x p = Some u -> Qabs (r - x) <= u / 2.
+Definition C16_round_sig_docstring_reading_idempotent : Prop := forall x p r, (1 <= p)%Z ->
+  round_sig x p = Some r -> round_sig r p = Some r.
+
+(* the coded function agrees with that reading exactly for mantissas below sqrt(10), where round and floor
+   of log10|x| coincide *)
+Theorem C16_round_sig_figures_docstring_reading_partial : forall x p r u k, ~ x == 0 ->
+  oom ORound x = Some k -> oom OFloor x = Some k ->
+  round_sig x p = Some r -> sig_unit_spec x p = Some u -> Qabs (r - x) <= u / 2.
+Proof. exact round_sig_figures_partial. Qed.
+Print Assumptions C16_round_sig_figures_docstring_reading_partial.
+
+(* observation: above sqrt(10) the code keeps p - 1 figures (3.5 -> 0 for p = 1), and a value that rounding
+   moves across sqrt(10)*10^k changes when the function is applied again (3.16 -> 3.2 -> 3.0 for p = 2) *)
+Theorem C16_round_sig_figures_docstring_reading_fails_above_sqrt10 : exists x p r u,
+  ~ x == 0 /\ (1 <= p)%Z /\ round_sig x p = Some r /\ sig_unit_spec x p = Some u /\ u / 2 < Qabs (r - x).
+Proof. exists (35 # 10), 1%Z, 0, 1. vm_compute. repeat split; try reflexivity; discriminate. Qed.
+Print Assumptions C16_round_sig_figures_docstring_reading_fails_above_sqrt10.
+
+Theorem C16_round_sig_twice_differs_across_sqrt10 : exists x p r r',
+  (1 <= p)%Z /\ round_sig x p = Some r /\ round_sig r p = Some r' /\ ~ r' == r.
+Proof. exists (316 # 100), 2%Z, (16 # 5), 3. vm_compute. repeat split; try reflexivity; discriminate. Qed.
+Print Assumptions C16_round_sig_twice_differs_across_sqrt10.
+
+Example C16_round_sig_example :
+  round_sig (12345678 # 10000) 3 = Some 1230 /\ round_sig (56781234 # 10000) 4 = Some 5680 /\
+  round_sig 0 3 = Some 0 /\ round_sig 25 1 = Some 20 /\ round_sig (314 # 100) 2 = Some (31 # 10) /\
+  oom ORound (314 # 100) = oom OFloor (314 # 100).
+Proof. vm_compute. repeat split; reflexivity. Qed.
+
+(* ------------------------------------------------------------------ np_clip *)
+
+Theorem C16_clip : forall x lo hi, lo <= hi ->
+  exists r, clip (Some x) lo hi = Some r /\ lo <= r /\ r <= hi /\ r == Qmin (Qmax x lo) hi.
+Proof. exact clip_spec. Qed.
+Print Assumptions C16_clip.
+
+Theorem C16_clip_idempotent_nan_preserved : forall a lo hi, lo <= hi ->
+  match clip a lo hi with Some r => clip (Some r) lo hi = Some r | None => a = None end.
+Proof. exact clip_idempotent. Qed.
+Print Assumptions C16_clip_idempotent_nan_preserved.
+
+Example C16_clip_example :
+  clip (Some 5) 0 3 = Some 3 /\ clip (Some (-5)) 0 3 = Some 0 /\ clip (Some 2) 0 3 = Some 2 /\
+  clip None 0 3 = None /\ clip (Some 1) 3 0 = Some 3 /\ 0 <= 3.
+Proof. vm_compute. repeat split; try reflexivity; discriminate. Qed.
+
+(* ------------------------------------------------------------------ fast_std (squared) *)
+
+(* no weights (or one weight), no mean: the population variance, np.std(x)^2 *)
+Theorem C16_fast_std_plain : forall l w, fast_var l None None = variance l /\ fast_var l (Some [w]) None = variance l.
+Proof. intros l w. split; reflexivity. Qed.
+Print Assumptions C16_fast_std_plain.
+
+(* a given mean: (1/n) sum (x - mu)^2 = variance + (mean - mu)^2 >= 0 *)
+Theorem C16_fast_std_given_mean : forall l mu, l <> [] ->
+  fast_var l None (Some mu) == variance l + (mean l - mu) * (mean l - mu) /\ 0 <= fast_var l None (Some mu).
+Proof. intros l mu H. split; [apply fast_var_given_mean; exact H|apply fast_var_given_mean_nonneg; exact H]. Qed.
+Print Assumptions C16_fast_std_given_mean.
+
+Example C16_fast_std_example :
+  fast_var [1; 2; 4; 7] None None == 21 # 4 /\ fast_var [1; 2; 4; 7] None (Some 3) == 11 # 2 /\
+  fast_var [1; 2; 4; 7] (Some [3 # 4; 3 # 4; 3 # 4; 3 # 4]) None == 21 # 4 /\
+  fast_var [1; 2; 4; 7] (Some [1 # 10; 2 # 10; 3 # 10; 4 # 10]) None == 101 # 15 /\
+  fast_var [1; 2; 4; 7] (Some [1; 2; 3; 4]) (Some 3) == 146 # 15.
+Proof. vm_compute. repeat split; reflexivity. Qed.
+
+(* ------------------------------------------------------------------ t_stat / unc_factor plumbing *)
+
+Theorem C16_t_stat_arguments : forall alpha n,
+  t_args alpha n 1 = Some (1 - alpha, (n - 1)%Z) /\ t_args alpha n 2 = Some (1 - alpha / 2, (n - 1)%Z) /\
+  (forall tail, tail <> 1%Z -> tail <> 2%Z -> t_args alpha n tail = None).
+Proof. exact t_args_spec. Qed.
+Print Assumptions C16_t_stat_arguments.
+
+Theorem C16_t_stat_percentile_range : forall alpha n tail pc d, 0 < alpha -> alpha < 1 ->
+  t_args alpha n tail = Some (pc, d) -> 0 < pc /\ pc < 1 /\ d = (n - 1)%Z.
+Proof. exact t_args_percentile_range. Qed.
+Print Assumptions C16_t_stat_percentile_range.
+
+(* unc_factor = base + root: root^2 * n = t^2 with the sign of t; base = 0 for "CI", t for "PI" *)
+Theorem C16_unc_factor : forall t n i b neg s, (0 < n)%Z -> unc_factor t n i = Some (b, Root neg s) ->
+  s * inject_Z n == t * t /\ neg = Qltb t 0 /\ (i = CI -> b == 0) /\ (i = PI -> b == t).
+Proof. exact unc_factor_spec. Qed.
+Print Assumptions C16_unc_factor.
+
+Example C16_unc_factor_example :
+  unc_factor 2 4 PI = Some (2, Root false 1) /\ unc_factor 2 4 CI = Some (0, Root false 1) /\
+  unc_factor 2 4 OtherInterval = None /\ t_args (1 # 10) 10 2 = Some (19 # 20, 9%Z) /\ t_args (1 # 10) 10 3 = None.
+Proof. vm_compute. repeat split; reflexivity. Qed.
